@@ -1,0 +1,60 @@
+//go:build verif
+
+// Verification hooks (build tag "verif") for schema generation and argument binding.
+// Nothing here is compiled into a normal build.
+
+package mcp
+
+import (
+	"encoding/json"
+	"fmt"
+	"reflect"
+
+	"trpc.group/trpc-go/trpc-mcp-go/internal/schema"
+)
+
+func verifSchemaOpts(style string) (schema.ConverterOptions, error) {
+	opts := schema.DefaultConverterOptions
+	switch style {
+	case "inline":
+		WithInlineStyle()(&opts)
+	case "defs":
+		WithRefStyle()(&opts)
+	case "nested":
+		WithNestedRefStyle()(&opts)
+	case "default":
+	default:
+		return opts, fmt.Errorf("unknown style %q", style)
+	}
+	return opts, nil
+}
+
+// VerifSchemaFor runs the real schema generator of the given style ("inline", "defs", "nested";
+// "default" = the library default options) on a run-time type and returns the schema as JSON.
+func VerifSchemaFor(t reflect.Type, style string) ([]byte, error) {
+	opts, err := verifSchemaOpts(style)
+	if err != nil {
+		return nil, err
+	}
+	s := schema.VerifConvertType(t, opts)
+	return json.Marshal(s)
+}
+
+// VerifToolFor builds a tool whose input (and, if out != nil, output) schema is generated for run-time types.
+func VerifToolFor(name string, in, out reflect.Type, style string) (*Tool, error) {
+	opts, err := verifSchemaOpts(style)
+	if err != nil {
+		return nil, err
+	}
+	t := NewTool(name)
+	t.InputSchema = schema.VerifConvertType(in, opts)
+	if out != nil {
+		t.OutputSchema = schema.VerifConvertType(out, opts)
+	}
+	return t, nil
+}
+
+// VerifBindArguments re-exports bindArguments (typed_handlers.go).
+func VerifBindArguments(arguments map[string]any, target any) error {
+	return bindArguments(arguments, target)
+}
